@@ -81,6 +81,7 @@ func Main(id, level string, body func(r *Run)) {
 	replay := flag.String("replay", "", "replay file")
 	flag.Parse()
 	logrus.SetOutput(io.Discard) // the library logs warnings on scripted faults; they are not results
+	logrus.SetLevel(logrus.PanicLevel) // and formatting them costs more than the checks themselves
 	if devnull, err := os.OpenFile(os.DevNull, os.O_WRONLY, 0); err == nil {
 		os.Stdout = devnull
 	}
